@@ -195,6 +195,8 @@ def make_scripted(fsic, spec, bases=None, extra_attrs=None):
                 passes = p.get('passes', [])
                 act = passes[k - 1] if k - 1 < len(passes) else p.get('default', {'a': 'delta', 'd': [0.0] * len(endo)})
                 rec['act'] = act.get('a')
+                if act.get('a') == 'npwarn':
+                    rec['npwarn_j'] = act['j']
                 _perform(self, t, act, endo)
             else:
                 act = p.get(hook) or {'a': 'noop'}
